@@ -91,7 +91,7 @@ def main():
         meta['confirmed'] = bool(rc0 == 0 and rc == 0 and rc1 != 0 and base == withp)
         checks = {}
         for p in (PROPS if allp else [prop]):
-            env2 = dict(os.environ, VERIF_REPO=tree, VERIF_OUT=os.path.join(d, 'out'))
+            env2 = dict(os.environ, VERIF_REPO=tree, VERIF_OUT=os.path.join(d, 'out'), VERIF_FIRST_VIOLATION=os.environ.get('VERIF_FIRST_VIOLATION', '1'))
             t0 = time.time()
             c = subprocess.run([os.path.join(ROOT, 'check'), p, '--tier', tier], capture_output=True, text=True, env=env2)
             lines = [l for l in c.stdout.splitlines() if l.startswith('VIOLATION')]
